@@ -209,13 +209,18 @@ impl Storage {
                                 .map_err(map_random_access_err)?;
                         }
                     } else {
-                        storage
+                        match storage
                             .del(
                                 info.index,
                                 info.length.expect("When deleting, length must be given"),
                             )
                             .await
-                            .map_err(map_random_access_err)?;
+                        {
+                            Ok(()) => {}
+                            // The store ends before the range: it is already gone.
+                            Err(RandomAccessError::OutOfBounds { .. }) => {}
+                            Err(err) => return Err(map_random_access_err(err)),
+                        }
                     }
                 }
                 StoreInfoType::Size => {
